@@ -346,6 +346,56 @@ pub fn generate(tier: Tier) -> Vec<Case> {
             }
         }
     }
+    // mutation lattice: every octet of a well-formed frame of every type replaced by boundary values
+    // (quick) or by every value (thorough); thorough also every pair of octets with four values
+    // each, and every 16-bit value in messageLength, sequenceId and the first TLV's lengthField
+    {
+        let mut bases: Vec<(String, Vec<u8>)> = DEFINED_TYPES.iter().map(|&t| (format!("type={t:#x}"), encode(&base_msg(t)))).collect();
+        let mut with_tlvs = base_msg(ANNOUNCE);
+        with_tlvs.tlvs = vec![Tlv { typ: TLV_PATH_TRACE, value: [[0xc1u8; 8], [0xc2u8; 8]].concat() }, Tlv { typ: 0x4000, value: vec![1, 2, 3, 4, 5, 6] }];
+        bases.push(("announce+tlvs".into(), encode(&with_tlvs)));
+        let mut sig = base_msg(SIGNALING);
+        sig.tlvs = vec![Tlv { typ: 0x0003, value: vec![0x11; 10] }];
+        bases.push(("signaling+tlv".into(), encode(&sig)));
+        for (name, base) in &bases {
+            for i in 0..base.len() {
+                let o = base[i];
+                let vals: Vec<u8> = (0..=255).collect();
+                for v in vals {
+                    if v != o {
+                        let mut b = base.clone();
+                        b[i] = v;
+                        out.push(Case { label: format!("{name} octet[{i}]={v:#x}"), bytes: b });
+                    }
+                }
+            }
+            if tier == Tier::Thorough {
+                for i in 0..base.len() {
+                    for j in (i + 1)..base.len() {
+                        for vi in [0u8, 0xff, base[i] ^ 1, base[i] ^ 0x80] {
+                            for vj in [0u8, 0xff, base[j] ^ 1, base[j] ^ 0x80] {
+                                let mut b = base.clone();
+                                b[i] = vi;
+                                b[j] = vj;
+                                out.push(Case { label: format!("{name} octet[{i}]={vi:#x} octet[{j}]={vj:#x}"), bytes: b });
+                            }
+                        }
+                    }
+                }
+                let mut offs = vec![2usize, 30];
+                if base.len() > 68 {
+                    offs.push(66); // lengthField of the first TLV of an Announce
+                }
+                for off in offs {
+                    for v in 0..=65535u16 {
+                        let mut b = base.clone();
+                        b[off..off + 2].copy_from_slice(&v.to_be_bytes());
+                        out.push(Case { label: format!("{name} u16[{off}]={v:#x}"), bytes: b });
+                    }
+                }
+            }
+        }
+    }
     if tier == Tier::Thorough {
         // two-field products for header fields (offset/width interactions)
         for &t in &DEFINED_TYPES {
@@ -802,7 +852,7 @@ pub fn run(tier: Tier) -> i32 {
     rep.cover("distinct_nontrivial", json!(distinct.len()));
     rep.cover(
         "rule",
-        json!("byte strings produced by the independent reference encoder over the lattice of DESIGN C04 (type nibbles, all 2^12 defined flag combinations, every value of each 8-bit field, boundary+single-bit values of 16-bit fields, zero/ones/single-byte patterns of wide fields, TLV layouts, messageLength x buffer length); non-trivial = distinct byte strings the reference accepts (these go through all five oracles), the rest only through totality/acceptance"),
+        json!("byte strings produced by the independent reference encoder over the lattice of DESIGN C04 (type nibbles, all 2^12 defined flag combinations, every value of each 8-bit field, boundary+single-bit values of 16-bit fields, zero/ones/single-byte patterns of wide fields, TLV layouts, messageLength x buffer length), plus the mutation lattice (every octet of a well-formed frame of every type replaced by every value; thorough: every pair of octets x 4 x 4 values, every 16-bit value of messageLength, sequenceId and a TLV lengthField); non-trivial = distinct byte strings the reference accepts (these go through all five oracles), the rest only through totality/acceptance"),
     );
     rep.cover("exhaustive", json!(true));
     rep.cover(
